@@ -22,6 +22,7 @@ def scale_of(key):
 
 def q_transpose():
     def fn(ctx):
+        fresh_process()
         k = ctx.int("key", 0, 14)
         n = ctx.int("n")
         key = KEYS[k]
@@ -41,6 +42,7 @@ def q_transpose():
 
 def q_compose():
     def fn(ctx):
+        fresh_process()
         k = ctx.int("key", 0, 14)
         a = ctx.int("a")
         b = ctx.int("b")
@@ -63,6 +65,7 @@ def q_compose():
 
 def q_major():
     def fn(ctx):
+        fresh_process()
         k = ctx.int("key", 0, 14)
         key = KEYS[k]
         ctx.must("major_scale", scale_of(key) == {(TONIC[key.value] + d) % 12 for d in MAJOR})
@@ -73,6 +76,7 @@ def q_major():
 
 def q_cof():
     def fn(ctx):
+        fresh_process()
         a = ctx.int("a")
         b = ctx.int("b")
         d = CircleOfFifths.get_distance(a, b)
@@ -93,6 +97,7 @@ def q_cof():
 
 def q_cof_any_distance():
     def fn(ctx):
+        fresh_process()
         a = ctx.int("a")
         d = ctx.int("d")
         land = CircleOfFifths.from_distance(a, d)
@@ -103,9 +108,47 @@ def q_cof_any_distance():
                  desc="from_distance(a, d) is a + d fifths for unbounded a, d")
 
 
+import copy as _copy
+
+_STATEFUL = (CircleOfFifths, MusicMapping, Key)
+_PRISTINE = {c: {k: _copy.deepcopy(v) for k, v in vars(c).items()
+                 if isinstance(v, (dict, list, set)) and not (k.startswith("_") and k.endswith("_"))} for c in _STATEFUL}
+
+
+def fresh_process():
+    """every path stands for a run in a fresh process: class-level containers get the contents they had at import time,
+    so what a path observes is what its own calls left behind (and a violation replays in a fresh interpreter)"""
+    for c, snap in _PRISTINE.items():
+        for k, v in list(vars(c).items()):
+            if not isinstance(v, (dict, list, set)) or (k.startswith("_") and k.endswith("_")):
+                continue
+            if k not in snap:
+                delattr(c, k)
+                continue
+            v.clear()
+            (v.extend if isinstance(v, list) else v.update)(_copy.deepcopy(snap[k]))
+
+
+def q_reverse_pair():
+    """a pair of pitches asked in one direction and then in the other, in one process"""
+    def fn(ctx):
+        fresh_process()
+        a = ctx.int("a")
+        b = ctx.int("b")
+        d1 = CircleOfFifths.get_distance(b, a)
+        d2 = CircleOfFifths.get_distance(a, b)
+        d3 = CircleOfFifths.get_distance(b, a)
+        ctx.must("mod12", and_(eq((d1 - 7 * (a - b)) % 12, 0), eq((d2 - 7 * (b - a)) % 12, 0), eq(d3, d1)))
+        ctx.must("range", and_(-5 <= d1, d1 <= 6, -5 <= d2, d2 <= 6))
+        ctx.must("from_distance_lands", eq(CircleOfFifths.from_distance(a, d2), b % 12))
+        return [d1, d2, d3]
+    return Query("reverse_pair", fn, ["mod12", "range", "from_distance_lands"], desc="get_distance(b, a), then get_distance(a, b)")
+
+
 def q_repeatable():
     """the tables are constants: asking twice gives the same answer"""
     def fn(ctx):
+        fresh_process()
         k = ctx.int("key", 0, 14)
         n = ctx.int("n")
         a = ctx.int("a")
@@ -120,7 +163,7 @@ def q_repeatable():
 
 
 def queries(tier, seed):
-    return [q_repeatable(), q_transpose(), q_compose(), q_major(), q_cof(), q_cof_any_distance()]
+    return [q_repeatable(), q_reverse_pair(), q_transpose(), q_compose(), q_major(), q_cof(), q_cof_any_distance()]
 
 
 # ---- independent second opinion: CrossHair (pre-installed symbolic executor) on the same pure functions
